@@ -132,13 +132,15 @@ def run_mixture(case, R):
 
     res = [run(s.data), run(d2)]
     noise = {}
+    confirmed = []
 
-    def replica_noise():
+    def replica_noise(reps=range(3)):
         # DESIGN 4.3: rounding sensitivity of this very case, measured on replicas with inputs * (1 + 2^-50 u)
-        if noise:
+        if noise and len(reps) <= 3:
             return noise
-        noise.update(post=0.0, par=0.0, ll=0.0, trace=0.0)
-        for rep in range(3):
+        for k_ in ('post', 'par', 'll', 'trace'):
+            noise.setdefault(k_, 0.0)
+        for rep in reps:
             rr = np.random.default_rng([*case['rs'], 7, rep])
             dd = dict(s.data)
             dd['y'] = (s.data['y'] * (1 + 2.0 ** (-50 if s.data['y'].dtype == np.complex128 or s.data['y'].dtype == np.float64 else -21) * rr.uniform(-1, 1, size=s.data['y'].shape))).astype(s.data['y'].dtype)      # a few ulps of the data's own precision
@@ -177,6 +179,11 @@ def run_mixture(case, R):
             R.undecided(monitor, 'built-in alignment tie between two classes without mass in one bin')
             return
         nz = replica_noise()[which]
+        if not (value <= 100 * nz or nz > 100 * tol) and not confirmed:
+            # rounding-decided branches (the sign of a rounding-level eigenvalue deciding whether it is floored) make the replica noise
+            # bimodal: a mismatch is reported only if nine further replicas agree with the first three
+            confirmed.append(True)
+            nz = replica_noise(range(100, 109))[which]
         if value <= 100 * nz or nz > 100 * tol:
             R.undecided(monitor, 'ill-conditioned case (mismatch within 100x replica noise, or replica noise > 100x tolerance)')
             return
